@@ -11,7 +11,7 @@ import (
 // GenStoreOpts draws the options of store number i.
 func GenStoreOpts(t *rapid.T, i int, placements []int) StoreOpts {
 	o := StoreOpts{Name: fmt.Sprintf("st%d", i)}
-	o.Slot = rapid.SampledFrom([]int{2, 2, 4, 4, 6, 8, 16, 64, 500}).Draw(t, fmt.Sprintf("slot%d", i))
+	o.Slot = rapid.SampledFrom([]int{2, 2, 3, 4, 4, 5, 6, 7, 8, 9, 16, 64, 500}).Draw(t, fmt.Sprintf("slot%d", i))
 	o.Unique = rapid.Bool().Draw(t, fmt.Sprintf("unique%d", i))
 	o.Placement = rapid.SampledFrom(placements).Draw(t, fmt.Sprintf("placement%d", i))
 	o.Balancing = rapid.IntRange(0, 3).Draw(t, fmt.Sprintf("balancing%d", i)) == 0
